@@ -81,6 +81,44 @@ pub enum VariantData {
     Named(NamedFieldsInfo),
 }
 
+/// With a container-level `from` / `try_from` attribute the fields and variants of the derived type
+/// are never looked at: a `#[deserr(..)]` attribute written on one of them (valid or not) could only
+/// be ignored silently, so it is rejected instead.
+fn reject_inner_deserr_attributes(data: &Data, container_attr: &str) -> syn::Result<()> {
+    fn check(attrs: &[syn::Attribute], container_attr: &str) -> syn::Result<()> {
+        for attr in attrs {
+            if attr.path().is_ident("deserr") {
+                return Err(syn::Error::new(
+                    attr.span(),
+                    format!("Cannot use `deserr` attributes on fields or variants together with the container `{container_attr}` attribute, they would be ignored"),
+                ));
+            }
+        }
+        Ok(())
+    }
+    match data {
+        Data::Struct(s) => {
+            for field in s.fields.iter() {
+                check(&field.attrs, container_attr)?;
+            }
+        }
+        Data::Enum(e) => {
+            for variant in e.variants.iter() {
+                check(&variant.attrs, container_attr)?;
+                for field in variant.fields.iter() {
+                    check(&field.attrs, container_attr)?;
+                }
+            }
+        }
+        Data::Union(u) => {
+            for field in u.fields.named.iter() {
+                check(&field.attrs, container_attr)?;
+            }
+        }
+    }
+    Ok(())
+}
+
 impl DerivedTypeInfo {
     pub fn parse(input: DeriveInput) -> syn::Result<Self> {
         // First, read the attributes on the derived input
@@ -100,12 +138,14 @@ impl DerivedTypeInfo {
         let data = if let Some(try_from) = &attrs.try_from {
             // if there was a container `try_from` attribute, then it doesn't matter what the derived input
             // is, we just call the provided function to deserialise it
+            reject_inner_deserr_attributes(&input.data, "try_from")?;
             TraitImplementationInfo::FallibleUserProvidedFunction {
                 try_from_attr: try_from.clone(),
             }
         } else if let Some(from) = &attrs.from {
             // if there was a container `from` attribute, then it doesn't matter what the derived input
             // is, we just call the provided function to deserialise it
+            reject_inner_deserr_attributes(&input.data, "from")?;
             TraitImplementationInfo::UnfallibleUserProvidedFunction {
                 from_attr: from.clone(),
             }
